@@ -83,6 +83,9 @@ def run_shard(shard, ctx):
         for l1, l2, style in itertools.product((1, 16, 33), (1, 16, 40), (0, 1, 2, 3)):
             if (l1 + l2 + style) % 3 == 0 or (l1, l2) == (16, 16):
                 run_case({"kind": "keystore", "l1": l1, "l2": l2, "style": style}, ctx)
+        # the ConfigEncData fields are named: their order carries no meaning
+        for order in ([0, 2, 1, 3], [3, 0, 1, 2], [2, 1, 0, 3], [1, 3, 2, 0]):
+            run_case({"kind": "keystore", "l1": 16, "l2": 16, "style": 0, "order": order}, ctx)
     elif kind == "key-bits":
         run_case({"kind": "key-bits"}, ctx)
     else:
@@ -265,7 +268,8 @@ def _case_keystore(case, ctx):
 
     kid = B.det("kid%d" % case["style"], 16)
     d1, d2 = B.det("d1", case["l1"]), B.det("d2", case["l2"])
-    text = B.keystore_text(kid, d1, d2, style=case["style"], extra=[("other.nested.key", "v"), (".dot", "x")])
+    text = B.keystore_text(kid, d1, d2, style=case["style"], extra=[("other.nested.key", "v"), (".dot", "x")],
+                           order=tuple(case.get("order", (0, 1, 2, 3))))
     ctx.nontrivial += 1
     exp = B.derive_key(d1, d2)
     import uuid
